@@ -44,6 +44,9 @@ func Load(opts *LoaderOptions) (*types.Project, error) {
 	if err != nil {
 		return nil, err
 	}
+	if mergedProject.LogLength == 0 {
+		mergedProject.LogLength = defaultLogLength
+	}
 	mergedProject.FileNames = opts.FileNames
 	mergedProject.EnvFileNames = opts.EnvFileNames
 	mergedProject.IsTuiDisabled = opts.isTuiDisabled || mergedProject.IsTuiDisabled
@@ -141,9 +144,9 @@ func loadProjectFromFile(inputFile string, opts *LoaderOptions) (*types.Project,
 	temp = os.ExpandEnv(temp)
 	temp = strings.ReplaceAll(temp, envEscaped, "$")
 
-	project := &types.Project{
-		LogLength: defaultLogLength,
-	}
+	// the default log length is applied after the merge: a file that does
+	// not mention log_length must not override the one that does
+	project := &types.Project{}
 	err = yaml.Unmarshal([]byte(temp), project)
 	if err != nil {
 		if opts.IsInternalLoader {
